@@ -7,6 +7,7 @@ import (
 	"os"
 	"runtime"
 	"strings"
+	"sync"
 	"time"
 
 	ethtypes "github.com/ethereum/go-ethereum/core/types"
@@ -104,6 +105,38 @@ type runner struct {
 	inconcl     string
 	startSubErr int
 	reconn      int
+	lagged      bool
+	gateMu      sync.Mutex
+	gate        chan struct{} // non-nil while the consumer is paused
+}
+
+func (r *runner) pauseConsumer() {
+	r.gateMu.Lock()
+	if r.gate == nil {
+		r.gate = make(chan struct{})
+	}
+	r.gateMu.Unlock()
+}
+
+func (r *runner) resumeConsumer() {
+	r.gateMu.Lock()
+	if r.gate != nil {
+		close(r.gate)
+		r.gate = nil
+	}
+	r.gateMu.Unlock()
+}
+
+func (r *runner) waitGate(done <-chan struct{}) {
+	r.gateMu.Lock()
+	g := r.gate
+	r.gateMu.Unlock()
+	if g != nil {
+		select {
+		case <-g:
+		case <-done:
+		}
+	}
 }
 
 func (r *runner) expected(b uint64) []ethtypes.Log { return expectedOf(r.blocks, b) }
@@ -144,7 +177,12 @@ func (r *runner) startStream(ec *executionclient.ExecutionClient, from uint64, p
 	s := &session{ec: ec, cancel: cancel, done: make(chan struct{})}
 	ch := ec.StreamLogs(ctx, from)
 	go func() {
-		for bl := range ch {
+		for {
+			r.waitGate(ctx.Done())
+			bl, ok := <-ch
+			if !ok {
+				break
+			}
 			r.n.recv(entry{Block: bl.BlockNumber, Logs: bl.Logs, NLogs: len(bl.Logs), Phase: phase})
 		}
 		r.n.mu.Lock()
@@ -344,6 +382,29 @@ func (r *runner) execOps(ops []op) bool {
 			if !r.execGroup(o) {
 				return false
 			}
+		case "lag":
+			n.mu.Lock()
+			n.logf("harness: the consumer stops reading the stream")
+			n.mu.Unlock()
+			r.pauseConsumer()
+			r.c.Count("consumer_lags", 1)
+			r.lagged = true
+			n.advance(o.Delta, o.Each)
+			// scheduling only (no verdict depends on it): give the client a moment to fetch what it can while nobody reads
+			_ = n.wait(r.caughtUp, waitQuiet, 150*time.Millisecond)
+			n.drop()
+			// let the client come back (scheduling only), so that the heads that follow reach its NEW subscription while the
+			// consumer still is not reading
+			_ = n.wait(func() bool { return n.freshSubs() > 0 }, waitQuiet, 500*time.Millisecond)
+			n.advance(o.Delta2, o.Each)
+			_ = n.wait(r.caughtUp, waitQuiet, 150*time.Millisecond)
+			n.mu.Lock()
+			n.logf("harness: the consumer reads again")
+			n.mu.Unlock()
+			r.resumeConsumer()
+			if ok, _ := r.waitCaughtUp(); !ok {
+				return false
+			}
 		}
 	}
 	return true
@@ -431,6 +492,7 @@ func (r *runner) execGroup(g op) bool {
 // until an entry >= T is seen (logical completion). Returns T and whether completion was reached.
 func (r *runner) finish() (uint64, bool) {
 	n := r.n
+	r.resumeConsumer()
 	n.mu.Lock()
 	need := r.p.From + r.p.Dist + 1
 	var extra int
@@ -570,6 +632,11 @@ func (r *runner) conclude(T uint64, completed bool) {
 	r.reconn = n.ln.acceptedCount() - 1 - r.restarts
 	if r.reconn < 0 {
 		r.reconn = 0
+	}
+	if d := os.Getenv("C13_DUMP_DIR"); d != "" && r.lagged { // debugging aid: timeline of the cases with a lagging consumer
+		n.mu.Lock()
+		_ = os.WriteFile(fmt.Sprintf("%s/lag-%s-c%d-i%d.txt", d, r.p.Lane, r.c.Idx, r.c.Index), []byte(strings.Join(n.timeline, "\n")+"\n"), 0o644)
+		n.mu.Unlock()
 	}
 	n.mu.Lock()
 	entries := append([]entry{}, n.entries...)
